@@ -6,21 +6,24 @@
 //! * Storage: an in-memory reference `StorageEngine` written here (`SimEngine`: map + purge boundary, volatile copy
 //!   and durable copy, `flush()` copies volatile to durable) or the real `FileStorageEngine`; both wrapped in a
 //!   journaling layer that records the sequence of store calls.
-//! * Where two arms of the IO loop's `tokio::select!` are ready at once tokio picks at random. The case says which
-//!   arm is meant to go first; the harness checks the journal of store calls and re-runs the whole case (fresh
-//!   runtime => fresh random seed) until the real code took the requested order (`sched-fail` after 400 tries).
+//! * Where two arms of the IO loop's `tokio::select!` are ready at once tokio picks at random. The case says in
+//!   which order ready arms are meant to run; the harness knows which arms are ready at every poll, reads the arm
+//!   trace of the real loop (hook `verif_arm_trace`) and re-runs the whole case (fresh runtime => fresh random
+//!   seed) until the real code took the requested order (`sched-fail` after 2000 tries).
 //!
 //! Case:  `e=sim|op;op;...`  (or `e=file|...`)          entries are `index.term.payload` joined by `,` (`-` = none)
 //!   a:<es>            append_entries
-//!   f:<pi>.<pt>:<es>  filter_out_conflicts_and_append        (suffix `^` on the op name: notify arm first,
-//!   p:<i>.<t>         purge_logs_up_to                         suffix `~`: clock advanced first, timer arm first)
+//!   f:<pi>.<pt>:<es>  filter_out_conflicts_and_append
+//!   p:<i>.<t>         purge_logs_up_to
 //!   r                 reset
 //!   fl                flush
 //!   al:<n>            pre_allocate_id_range(n)
 //!   g:<a>.<b>         get_entries_range(a..=b)
-//!   io:n              poll the IO loop (runs the notify arm if a notification is pending)
-//!   io:t              advance the clock by the idle interval, poll the IO loop (timer arm)
+//!   io                poll the IO loop (runs whatever arm is ready)
 //!   close             close() (Shutdown task), poll the IO loop
+//! f, p, r, fl, io, close take a scheduling annotation on the name: a leading `+` advances the paused clock by the
+//! idle interval first (timer tick due; the loop is then also polled at the end of the op), and `@xyz` (a permutation
+//! of c=command arm, n=notify arm, t=timer arm) is the order in which ready arms are meant to run (default `@cnt`).
 //!   c:p / c:w         crash (process: volatile image survives / power loss: durable image survives), reopen with `new`
 //! Output: one record per op joined by `;`:  `<result> <snapshot>`.
 use std::collections::BTreeMap;
@@ -34,6 +37,7 @@ use std::time::Duration;
 
 use async_trait::async_trait;
 use bytes::Bytes;
+use d_engine_core::verif_arm_trace;
 use d_engine_core::{
     BufferedRaftLog, Error, FlushPolicy, HardState, LogStore, MetaStore, MockCommitHandler, MockElectionCore,
     MockMembership, MockPurgeExecutor, MockReplicationCore, MockSnapshotPolicy, MockStateMachine,
@@ -378,67 +382,117 @@ fn pair(s: &str) -> Option<(u64, u64)> {
 }
 
 #[derive(Clone, Copy, PartialEq, Eq, Debug)]
-enum First {
-    Cmd,
-    Notify,
-    Timer,
+struct Sched {
+    clock: bool,
+    prio: [u8; 3],
 }
+const PLAIN: Sched = Sched { clock: false, prio: [b'c', b'n', b't'] };
 
 #[derive(Clone, Debug)]
 enum Op {
     Append(Vec<Entry>),
-    Fca(u64, u64, Vec<Entry>, First),
-    Purge(u64, u64, First),
-    Reset(First),
-    Flush(First),
+    Fca(u64, u64, Vec<Entry>, Sched),
+    Purge(u64, u64, Sched),
+    Reset(Sched),
+    Flush(Sched),
     Alloc(u64),
     Get(u64, u64),
-    IoN,
-    IoT,
-    Close,
+    Io(Sched),
+    Close(Sched),
     Crash(bool),
 }
 
+fn parse_head(h: &str) -> Option<(&str, Sched)> {
+    let (clock, h) = match h.strip_prefix('+') {
+        Some(r) => (true, r),
+        None => (false, h),
+    };
+    let mut it = h.split('@');
+    let name = it.next()?;
+    let prio = match it.next() {
+        None => PLAIN.prio,
+        Some(p) => {
+            let b = p.as_bytes();
+            if b.len() != 3 || !b.iter().all(|x| b"cnt".contains(x)) || b[0] == b[1] || b[1] == b[2] || b[0] == b[2] {
+                return None;
+            }
+            [b[0], b[1], b[2]]
+        }
+    };
+    if it.next().is_some() {
+        return None;
+    }
+    Some((name, Sched { clock, prio }))
+}
+
 fn parse_op(s: &str) -> Option<Op> {
-    let (name, rest) = match s.find(':') {
+    let (head, rest) = match s.find(':') {
         Some(k) => (&s[..k], &s[k + 1..]),
         None => (s, ""),
     };
-    let (name, first) = if let Some(n) = name.strip_suffix('^') {
-        (n, First::Notify)
-    } else if let Some(n) = name.strip_suffix('~') {
-        (n, First::Timer)
-    } else {
-        (name, First::Cmd)
-    };
+    let (name, sch) = parse_head(head)?;
+    let plain = sch == PLAIN;
     Some(match name {
-        "a" if first == First::Cmd => Op::Append(parse_entries(rest)?),
+        "a" if plain => Op::Append(parse_entries(rest)?),
         "f" => {
             let k = rest.find(':')?;
             let (pi, pt) = pair(&rest[..k])?;
-            Op::Fca(pi, pt, parse_entries(&rest[k + 1..])?, first)
+            Op::Fca(pi, pt, parse_entries(&rest[k + 1..])?, sch)
         }
         "p" => {
             let (i, t) = pair(rest)?;
-            Op::Purge(i, t, first)
+            Op::Purge(i, t, sch)
         }
-        "r" if rest.is_empty() => Op::Reset(first),
-        "fl" if rest.is_empty() => Op::Flush(first),
-        "al" if first == First::Cmd => Op::Alloc(rest.parse().ok()?),
-        "g" if first == First::Cmd => {
+        "r" if rest.is_empty() => Op::Reset(sch),
+        "fl" if rest.is_empty() => Op::Flush(sch),
+        "al" if plain => Op::Alloc(rest.parse().ok()?),
+        "g" if plain => {
             let (a, b) = pair(rest)?;
             if b.saturating_sub(a) > 100_000 {
                 return None;
             }
             Op::Get(a, b)
         }
-        "io" if first == First::Cmd && rest == "n" => Op::IoN,
-        "io" if first == First::Cmd && rest == "t" => Op::IoT,
-        "close" if first == First::Cmd && rest.is_empty() => Op::Close,
-        "c" if first == First::Cmd && rest == "p" => Op::Crash(false),
-        "c" if first == First::Cmd && rest == "w" => Op::Crash(true),
+        "io" if rest.is_empty() => Op::Io(sch),
+        "close" if rest.is_empty() => Op::Close(sch),
+        "c" if plain && rest == "p" => Op::Crash(false),
+        "c" if plain && rest == "w" => Op::Crash(true),
         _ => return None,
     })
+}
+
+/// The arms the loop runs when polled, given which are ready and the requested order. The notify arm also drains
+/// the command queue; the loop exits after the arm that meets `Shutdown`.
+fn expected_trace(prio: &[u8; 3], mut n: u8, mut c: bool, mut t: bool, shutdown: bool) -> Vec<u8> {
+    let mut out = vec![];
+    loop {
+        let pick = prio.iter().copied().find(|a| match a {
+            b'n' => n > 0,
+            b'c' => c,
+            _ => t,
+        });
+        let Some(a) = pick else { break };
+        out.push(a);
+        match a {
+            b'n' => {
+                n -= 1;
+                if c {
+                    c = false;
+                    if shutdown {
+                        break;
+                    }
+                }
+            }
+            b'c' => {
+                c = false;
+                if shutdown {
+                    break;
+                }
+            }
+            _ => t = false,
+        }
+    }
+    out
 }
 
 // ------------------------------------------------------------------------------------ the system under test
@@ -447,9 +501,13 @@ struct Sys<B: Backend> {
     ctx: B::Ctx,
     log: Arc<BufferedRaftLog<Cfg<B>>>,
     io: Option<Pin<Box<dyn Future<Output = ()>>>>,
-    journal: Arc<Mutex<Vec<Act>>>,
-    /// a write notification is pending (append_entries ran since the IO loop was last polled)
-    np: bool,
+    /// wake-ups pending on the loop's Notify: the first `notify_one` goes to the loop's registered waiter, a second
+    /// one is stored as a permit (further ones coalesce)
+    np: u8,
+    /// the clock was advanced and the loop has not been polled since
+    timer_due: bool,
+    /// the last `drive` had to poll the IO loop (the operation waited for a task it had sent)
+    last_drive_waited: bool,
 }
 
 struct SchedMismatch;
@@ -457,7 +515,7 @@ struct SchedMismatch;
 impl<B: Backend> Sys<B> {
     async fn open(eng: Arc<B>, ctx: B::Ctx) -> Self {
         let journal = Arc::new(Mutex::new(Vec::new()));
-        let je = Arc::new(JEngine::new(eng.clone(), journal.clone()));
+        let je = Arc::new(JEngine::new(eng.clone(), journal));
         let (log, rx) = BufferedRaftLog::<Cfg<B>>::new(
             1,
             PersistenceConfig {
@@ -469,63 +527,44 @@ impl<B: Backend> Sys<B> {
         );
         let log = Arc::new(log);
         let io = BufferedRaftLog::verif_io_loop(&log, rx);
-        let mut s = Sys { eng, ctx, log, io: Some(io), journal, np: false };
+        let mut s = Sys { eng, ctx, log, io: Some(io), np: 0, timer_due: false, last_drive_waited: false };
         // first poll: the loop creates its timer and registers on the Notify / the channel; nothing is ready
-        s.poll_io().await;
+        let _ = s.poll_io(false, &PLAIN, false).await;
         s
     }
 
-    async fn poll_io(&mut self) {
-        if let Some(io) = self.io.as_mut() {
-            if let Poll::Ready(()) = futures::poll!(io.as_mut()) {
-                self.io = None; // loop exited (Shutdown): its receiver is dropped with it
-            }
-            self.np = false; // the loop ran until nothing was ready
+    fn notified(&mut self) {
+        self.np = (self.np + 1).min(2);
+    }
+
+    /// Poll the IO loop once (it iterates until no arm is ready) and compare the arms it ran with the requested order.
+    async fn poll_io(&mut self, cmd: bool, sch: &Sched, shutdown: bool) -> Result<(), SchedMismatch> {
+        let Some(io) = self.io.as_mut() else { return Ok(()) };
+        let _ = verif_arm_trace::take();
+        if let Poll::Ready(()) = futures::poll!(io.as_mut()) {
+            self.io = None; // loop exited (Shutdown): its receiver is dropped with it
         }
+        let actual = verif_arm_trace::take();
+        let expected = expected_trace(&sch.prio, self.np, cmd, self.timer_due, shutdown);
+        self.np = 0;
+        self.timer_due = false;
+        if actual == expected { Ok(()) } else { Err(SchedMismatch) }
     }
 
     /// Run an operation that may wait for the IO loop: poll it, and while it is pending poll the IO loop.
-    async fn drive<T>(&mut self, f: impl Future<Output = T>) -> Option<T> {
+    async fn drive<T>(&mut self, f: impl Future<Output = T>, sch: &Sched) -> Result<Option<T>, SchedMismatch> {
         let mut f = std::pin::pin!(f);
+        let mut cmd = true; // a pending operation has put exactly one task on the loop's channel
+        self.last_drive_waited = false;
         for _ in 0..8 {
             if let Poll::Ready(r) = futures::poll!(f.as_mut()) {
-                return Some(r);
+                return Ok(Some(r));
             }
-            self.poll_io().await;
+            self.last_drive_waited = true;
+            self.poll_io(cmd, sch, false).await?;
+            cmd = false;
         }
-        None
-    }
-
-    fn jlen(&self) -> usize {
-        self.journal.lock().unwrap().len()
-    }
-
-    /// Did the IO loop take the requested arm first? Judged from the store calls made while the operation ran
-    /// (`from..to` of the journal); `np` = a write notification was pending when the loop was polled. Orders that
-    /// leave the same calls behind lead to the same state, so they need not be told apart.
-    fn sched_ok(&self, from: usize, to: usize, cmd: Option<Act>, first: First, np: bool) -> Result<(), SchedMismatch> {
-        let j = self.journal.lock().unwrap();
-        let slice = &j[from..to];
-        let Some(cmd) = cmd else { return Ok(()) };
-        let Some(pos) = slice.iter().position(|a| *a == cmd) else { return Ok(()) };
-        let before = &slice[..pos];
-        let after = &slice[pos + 1..];
-        let ok = match first {
-            // command arm first: its store call is the first store call of the run
-            First::Cmd => before.is_empty(),
-            // notify arm first (it drains the command): what it persists comes before the command's call, with
-            // no fsync in between
-            First::Notify => !np || (!before.contains(&Act::Flush) && (!slice.contains(&Act::Persist) || before.contains(&Act::Persist))),
-            // timer arm first (persist + fsync, no drain), then the command
-            First::Timer => {
-                if np {
-                    !after.contains(&Act::Persist) && (!before.contains(&Act::Persist) || before.contains(&Act::Flush))
-                } else {
-                    after.is_empty()
-                }
-            }
-        };
-        if ok { Ok(()) } else { Err(SchedMismatch) }
+        Ok(None)
     }
 
     fn mem_dump(&self) -> String {
@@ -572,35 +611,36 @@ impl<B: Backend> Sys<B> {
             Some(Err(_)) => "err".to_string(),
             None => "hang".to_string(),
         };
-        let j0 = self.jlen();
-        let np0 = self.np;
         let log = self.log.clone();
-        let first_of = match op {
-            Op::Fca(_, _, _, f) | Op::Purge(_, _, f) | Op::Reset(f) | Op::Flush(f) => *f,
-            _ => First::Cmd,
+        let sch = match op {
+            Op::Fca(_, _, _, s) | Op::Purge(_, _, s) | Op::Reset(s) | Op::Flush(s) | Op::Io(s) | Op::Close(s) => *s,
+            _ => PLAIN,
         };
-        if first_of == First::Timer {
+        if sch.clock {
             tokio::time::advance(Duration::from_millis(IDLE_MS)).await;
+            self.timer_due = true;
         }
         let out = match op {
             Op::Append(es) => {
-                let r = res(self.drive(log.append_entries(es.clone())).await);
+                let r = res(self.drive(log.append_entries(es.clone()), &sch).await?);
                 if !es.is_empty() {
-                    self.np = true;
+                    self.notified();
                 }
                 r
             }
-            Op::Fca(pi, pt, es, first) => {
+            Op::Fca(pi, pt, es, _) => {
                 let m0 = self.mem_dump();
-                let r = self.drive(log.filter_out_conflicts_and_append(*pi, *pt, es.clone())).await;
-                let j1 = self.jlen();
-                // reset path: the Reset command, conflict path: the ReplaceRange command
+                let d0 = self.log.durable_index();
+                let r = self.drive(log.filter_out_conflicts_and_append(*pi, *pt, es.clone()), &sch).await?;
+                // Which path ran? reset: prev = (0,0); otherwise append_entries was called iff the log changed
+                // without the conflict branch (the conflict branch lowers next_id/durable and sends ReplaceRange,
+                // it does not notify). The conflict branch is recognised by its ReplaceRange store call; the
+                // harness sees it as "the operation waited".
                 let reset = *pi == 0 && *pt == 0;
-                let cmd = if reset { Act::Reset } else { Act::Replace };
-                self.sched_ok(j0, j1, Some(cmd), *first, np0)?;
-                let replaced = self.journal.lock().unwrap()[j0..j1].contains(&Act::Replace);
-                if matches!(r, Some(Ok(_))) && ((reset && !es.is_empty()) || (!reset && !replaced && self.mem_dump() != m0)) {
-                    self.np = true; // the operation went through append_entries
+                let waited = self.last_drive_waited;
+                let _ = d0;
+                if matches!(r, Some(Ok(_))) && ((reset && !es.is_empty()) || (!reset && !waited && self.mem_dump() != m0)) {
+                    self.notified(); // the operation went through append_entries
                 }
                 match r {
                     Some(Ok(Some(l))) => format!("r={}.{}", l.index, l.term),
@@ -609,17 +649,9 @@ impl<B: Backend> Sys<B> {
                     None => "hang".into(),
                 }
             }
-            Op::Purge(i, t, first) => {
-                let r = self.drive(log.purge_logs_up_to(LogId { index: *i, term: *t })).await;
-                self.sched_ok(j0, self.jlen(), Some(Act::Purge), *first, np0)?;
-                res(r)
-            }
-            Op::Reset(first) => {
-                let r = self.drive(log.reset()).await;
-                self.sched_ok(j0, self.jlen(), Some(Act::Reset), *first, np0)?;
-                res(r)
-            }
-            Op::Flush(_) => res(self.drive(log.flush()).await),
+            Op::Purge(i, t, _) => res(self.drive(log.purge_logs_up_to(LogId { index: *i, term: *t }), &sch).await?),
+            Op::Reset(_) => res(self.drive(log.reset(), &sch).await?),
+            Op::Flush(_) => res(self.drive(log.flush(), &sch).await?),
             Op::Alloc(n) => {
                 let r = log.pre_allocate_id_range(*n);
                 if *n == 0 { "-".to_string() } else { format!("{}-{}", r.start(), r.end()) }
@@ -628,23 +660,19 @@ impl<B: Backend> Sys<B> {
                 let es = log.get_entries_range(*a..=*b).unwrap_or_default();
                 format!("g={}", show_entries(&es))
             }
-            Op::IoN => {
-                self.poll_io().await;
+            Op::Io(_) => {
+                self.poll_io(false, &sch, false).await?;
                 "ok".into()
             }
-            Op::IoT => {
-                tokio::time::advance(Duration::from_millis(IDLE_MS)).await;
-                self.poll_io().await;
-                "ok".into()
-            }
-            Op::Close => {
-                let _ = self.drive(log.close()).await;
-                self.poll_io().await;
+            Op::Close(_) => {
+                let alive = self.io.is_some();
+                let _ = self.drive(log.close(), &sch).await?;
+                self.poll_io(alive, &sch, true).await?;
                 "ok".into()
             }
             Op::Crash(power) => {
                 drop(log);
-                let Sys { eng, ctx, log, io, journal: _, np: _ } = self;
+                let Sys { eng, ctx, log, io, .. } = self;
                 drop(io); // the IO loop dies where it stands
                 drop(log);
                 match B::crash(eng, &ctx, *power) {
@@ -657,9 +685,9 @@ impl<B: Backend> Sys<B> {
                 }
             }
         };
-        if first_of == First::Timer {
+        if sch.clock {
             // consume the due tick inside this operation, whether or not the operation waited for the IO loop
-            self.poll_io().await;
+            self.poll_io(false, &sch, false).await?;
         }
         let snap = self.snapshot();
         Ok((self, format!("{} {}", out, snap)))
@@ -690,7 +718,7 @@ fn exec(case: &str) -> String {
     if file && ops.iter().any(|o| matches!(o, Op::Crash(true))) {
         return "bad-case".into();
     }
-    for _ in 0..400 {
+    for _ in 0..2000 {
         let rt = tokio::runtime::Builder::new_current_thread().enable_all().start_paused(true).build().unwrap();
         let r = if file { rt.block_on(run_case::<FileStorageEngine>(&ops)) } else { rt.block_on(run_case::<SimEngine>(&ops)) };
         if let Ok(s) = r {
@@ -763,15 +791,21 @@ fn show_es(es: &[(u64, u64, u64)]) -> String {
     es.iter().map(|e| format!("{}.{}.{}", e.0, e.1, e.2)).collect::<Vec<_>>().join(",")
 }
 
-fn race_suffix(r: &mut Rng, racy: bool) -> &'static str {
+/// scheduling annotation `(prefix, suffix)` of an op name: `+` = clock advanced first, `@xyz` = arm order
+fn sched(r: &mut Rng, racy: bool) -> (&'static str, &'static str) {
     if !racy {
-        return "";
+        return ("", "");
     }
-    match r.below(4) {
-        0 => "^",
-        1 => "~",
+    let pre = if r.chance(1, 3) { "+" } else { "" };
+    let suf = match r.below(8) {
+        0 => "@nct",
+        1 => "@ntc",
+        2 => "@tcn",
+        3 => "@tnc",
+        4 => "@ctn",
         _ => "",
-    }
+    };
+    (pre, suf)
 }
 
 /// one mostly-well-formed operation, instantiated against the shadow
@@ -808,7 +842,8 @@ fn structured_op(r: &mut Rng, sh: &mut Shadow, racy: bool, file: bool) -> String
             let es = sh.run(1, r.range(1, 3), 1);
             sh.log = es.clone();
             sh.synced = false;
-            return format!("f{}:0.0:{}", race_suffix(r, racy), show_es(&es));
+            let (a, b) = sched(r, racy);
+            return format!("{}f{}:0.0:{}", a, b, show_es(&es));
         }
         let k = r.range(0, 3);
         let t = bump(r, sh);
@@ -825,7 +860,8 @@ fn structured_op(r: &mut Rng, sh: &mut Shadow, racy: bool, file: bool) -> String
         if pi == 0 && pt == 0 {
             let es = sh.log.clone();
             sh.synced = false;
-            return format!("f{}:0.0:{}", race_suffix(r, racy), show_es(&es));
+            let (a, b) = sched(r, racy);
+            return format!("{}f{}:0.0:{}", a, b, show_es(&es));
         }
         let mut es: Vec<_> = sh.log[start..].to_vec();
         let k = r.range(0, 2);
@@ -851,11 +887,13 @@ fn structured_op(r: &mut Rng, sh: &mut Shadow, racy: bool, file: bool) -> String
         if pi == 0 && pt == 0 {
             sh.log = es.clone();
             sh.synced = false;
-            return format!("f{}:0.0:{}", race_suffix(r, racy), show_es(&es));
+            let (a, b) = sched(r, racy);
+            return format!("{}f{}:0.0:{}", a, b, show_es(&es));
         }
         sh.fca(pi, pt, &es);
         sh.synced = false;
-        format!("f{}:{}.{}:{}", race_suffix(r, racy), pi, pt, show_es(&es))
+        let (a, b) = sched(r, racy);
+        format!("{}f{}:{}.{}:{}", a, b, pi, pt, show_es(&es))
     } else if roll < 62 {
         // prev does not match
         let (pi, pt) = sh.last();
@@ -868,7 +906,8 @@ fn structured_op(r: &mut Rng, sh: &mut Shadow, racy: bool, file: bool) -> String
         let es = sh.run(sh.anchor.0 + 1, k, t);
         sh.log = es.clone();
         sh.synced = false;
-        format!("f{}:0.0:{}", race_suffix(r, racy), show_es(&es))
+        let (a, b) = sched(r, racy);
+        format!("{}f{}:0.0:{}", a, b, show_es(&es))
     } else if roll < 74 {
         // purge up to somewhere between the anchor and just beyond the end
         let lo = sh.anchor.0;
@@ -878,21 +917,25 @@ fn structured_op(r: &mut Rng, sh: &mut Shadow, racy: bool, file: bool) -> String
         sh.log.retain(|e| e.0 > ci);
         sh.anchor = (ci, ct);
         sh.synced = false;
-        format!("p{}:{}.{}", race_suffix(r, racy), ci, ct)
+        let (a, b) = sched(r, racy);
+        format!("{}p{}:{}.{}", a, b, ci, ct)
     } else if roll < 76 {
         sh.log.clear();
         sh.synced = false;
-        format!("r{}", race_suffix(r, racy))
+        let (a, b) = sched(r, racy);
+        format!("{}r{}", a, b)
     } else if roll < 82 {
         if sh.alive {
             sh.synced = true;
         }
-        format!("fl{}", race_suffix(r, racy))
+        let (a, b) = sched(r, racy);
+        format!("{}fl{}", a, b)
     } else if roll < 88 {
         if sh.alive {
             sh.synced = true;
         }
-        if r.chance(2, 3) { "io:n".into() } else { "io:t".into() }
+        let (_, b) = sched(r, racy);
+        if r.chance(2, 3) { format!("io{}", b) } else { format!("+io{}", b) }
     } else if roll < 90 {
         format!("al:{}", r.below(3))
     } else if roll < 92 {
@@ -901,7 +944,8 @@ fn structured_op(r: &mut Rng, sh: &mut Shadow, racy: bool, file: bool) -> String
     } else if roll < 93 {
         sh.alive = false;
         sh.synced = true;
-        "close".into()
+        let (a, b) = sched(r, racy);
+        format!("{}close{}", a, b)
     } else {
         let power = !file && r.chance(1, 2);
         if !sh.synced {
@@ -953,12 +997,13 @@ fn malformed_case(r: &mut Rng) -> String {
                 if r.chance(1, 2) {
                     es.sort();
                 }
-                format!("f{}:{}.{}:{}", race_suffix(r, true), r.below(9), r.below(4), show_es(&es))
+                let (a, b) = sched(r, true);
+                format!("{}f{}:{}.{}:{}", a, b, r.below(9), r.below(4), show_es(&es))
             }
             7 => format!("p:{}.{}", r.below(10), r.below(4)),
             8 => "r".into(),
             9 => "fl".into(),
-            10 => if r.chance(1, 2) { "io:n".into() } else { "io:t".into() },
+            10 => if r.chance(1, 2) { "io".into() } else { "+io".into() },
             11 => format!("al:{}", r.below(4)),
             12 => format!("g:{}.{}", r.below(8), r.below(8)),
             _ => if r.chance(1, 2) { "c:p".into() } else { "c:w".into() },
@@ -1016,7 +1061,7 @@ fn exhaustive(len: usize, out: &mut Vec<String>) {
                     format!("p:{}.{}", ci, ct)
                 }
                 7 => "fl".to_string(),
-                8 => "io:n".to_string(),
+                8 => "io".to_string(),
                 9 => "c:p".to_string(),
                 _ => "c:w".to_string(),
             };
